@@ -661,8 +661,8 @@ func (c *Ctx) runShardIsolated(rq enumReq) *enumRes {
 		total.ViolCount++
 		total.Outcomes["fatal:"+f1]++
 		total.Violations = append(total.Violations, explore.Violation{
-			Key: fmt.Sprintf("process-killed:%s:%s", f1, fn1),
-			Msg: fmt.Sprintf("evaluating case %d of %s kills the process with a Go runtime fatal error (%s) raised in %s; reproduced twice in a fresh process", at, rq.Enum, f1, fn1),
+			Key:    fmt.Sprintf("process-killed:%s:%s", f1, fn1),
+			Msg:    fmt.Sprintf("evaluating case %d of %s kills the process with a Go runtime fatal error (%s) raised in %s; reproduced twice in a fresh process", at, rq.Enum, f1, fn1),
 			Detail: map[string]interface{}{"case_index": at, "case": describeCase(rq.Enum, rq.Tier, at)},
 		})
 		rq.From = at + 1
